@@ -37,7 +37,7 @@ def suite(wt):
 
 
 def demo(wt, name):
-    env = dict(os.environ, FORCE_BINJA_MOCK="1", WT_ROOT=wt)
+    env = dict(os.environ, FORCE_BINJA_MOCK="1", WT_ROOT=wt, PYTHONPATH=wt)
     p = sh(f"/venv/bin/python {name}", cwd=wt, env=env, timeout=1800)
     return p.returncode, (p.stdout + p.stderr)[-600:]
 
